@@ -96,38 +96,41 @@ theorem runs_locator_absent {B : Bytes} {p : Nat} (hl : p + 4 ≤ B.length)
   rw [if_pos (by simpa using hne)]
   exact Runs.throw _
 
-/-- `get_directory_counts` when no ZIP64 locator sits in front of the end record. -/
+/-- `get_directory_counts` when no ZIP64 locator sits in front of the end record.  `hroom`: the end record
+and its comment lie inside the file (so, when the record starts at 20 or later, the probe position is not
+negative); with the record less than 20 bytes into the file nothing is probed at all. -/
 theorem runs_getDirectoryCounts_plain {B : Bytes} {footer : Eocd} {cdeStart p0 : Nat}
     (hprobe : 42 + footer.comment.length ≤ B.length →
       u32At B (B.length - 42 - footer.comment.length) ≠ some LOCATOR_SIG)
+    (hroom : 20 ≤ cdeStart → 42 + footer.comment.length ≤ B.length)
     (h : footer.cdSize.toNat + footer.cdOffset.toNat ≤ cdeStart) :
     ∃ q, Runs (getDirectoryCounts footer cdeStart) B p0
       (.ok (cdeStart - footer.cdSize.toNat - footer.cdOffset.toNat,
             footer.cdOffset.toNat + (cdeStart - footer.cdSize.toNat - footer.cdOffset.toNat),
             footer.filesOnDisk.toNat)) q := by
   unfold getDirectoryCounts
-  by_cases hlen : 42 + footer.comment.length ≤ B.length
-  · refine ⟨B.length - 42 - footer.comment.length + 4, ?_⟩
+  by_cases h20 : cdeStart < 20
+  · refine ⟨p0, ?_⟩
+    rw [if_pos h20]
+    refine Runs.bind (Runs.pure _) ?_
+    dsimp only
+    rw [if_neg (by omega)]
+    exact Runs.pure _
+  · have hlen := hroom (by omega)
+    refine ⟨B.length - 42 - footer.comment.length + 4, ?_⟩
+    rw [if_neg h20]
     have hs := Runs.seek_end (B := B) (p := p0) (off := -(20 + 22 + (footer.comment.length : Int))) (by omega)
     have e : ((B.length : Int) + -(20 + 22 + (footer.comment.length : Int))).toNat =
         B.length - 42 - footer.comment.length := by omega
     rw [e] at hs
-    refine Runs.bind (Runs.attempt_ok hs) ?_
-    dsimp only
-    refine Runs.bind (Runs.attempt_err (runs_locator_absent (by omega) (hprobe hlen))) ?_
-    dsimp only
-    refine Runs.bind (Runs.pure _) ?_
-    dsimp only
-    rw [if_neg (by omega)]
-    exact Runs.pure _
-  · refine ⟨p0, ?_⟩
-    have hs := Runs.seek_end_neg (B := B) (p := p0) (off := -(20 + 22 + (footer.comment.length : Int))) (by omega)
-    refine Runs.bind (Runs.attempt_err hs) ?_
-    dsimp only
-    refine Runs.bind (Runs.pure _) ?_
-    dsimp only
-    rw [if_neg (by omega)]
-    exact Runs.pure _
+    refine Runs.bind (?_ : Runs _ B p0 (.ok none) (B.length - 42 - footer.comment.length + 4)) ?_
+    · refine Runs.bind hs ?_
+      refine Runs.bind (Runs.attempt_err (runs_locator_absent (by omega) (hprobe hlen))) ?_
+      dsimp only
+      exact Runs.pure _
+    · dsimp only
+      rw [if_neg (by omega)]
+      exact Runs.pure _
 
 
 /-! ### `Zip64CentralDirectoryEnd::find_and_parse` (forward search) -/
@@ -203,11 +206,12 @@ theorem runs_getDirectoryCounts_z64 {B rest rest' : Bytes} {footer : Eocd} {cdeS
   have e : ((B.length : Int) + -(20 + 22 + (footer.comment.length : Int))).toNat =
       B.length - 42 - footer.comment.length := by omega
   rw [e] at hs
-  refine Runs.bind (Runs.attempt_ok hs) ?_
-  dsimp only
-  refine Runs.bind (Runs.attempt_ok ((parses_locator ldw loff ldisks).toRuns hloc)) ?_
-  dsimp only
-  refine Runs.bind (Runs.pure _) ?_
+  rw [if_neg (by omega)]
+  refine Runs.bind (?_ : Runs _ B p0 (.ok (some ⟨ldw, loff, ldisks⟩)) (B.length - 42 - footer.comment.length + 20)) ?_
+  · refine Runs.bind hs ?_
+    refine Runs.bind (Runs.attempt_ok ((parses_locator ldw loff ldisks).toRuns hloc)) ?_
+    dsimp only
+    exact Runs.pure _
   dsimp only
   rw [hdisk, if_neg (by simp), if_neg (by omega)]
   unfold findEocd64
@@ -312,7 +316,7 @@ theorem open_plain (l : Layout) (hF : l.Fits) (hR : l.Readable) (h64 : l.needs64
     (by omega) (by omega) hnfE
   have hle : (eocdOf l).cdSize.toNat + (eocdOf l).cdOffset.toNat ≤ l.eocdPos := by omega
   obtain ⟨q1, hq1⟩ := runs_getDirectoryCounts_plain (B := build l) (footer := eocdOf l)
-    (cdeStart := l.eocdPos) (p0 := l.eocdPos + 22 + l.comment.length) hnfL hle
+    (cdeStart := l.eocdPos) (p0 := l.eocdPos + 22 + l.comment.length) hnfL (by intro _; have hcm : (eocdOf l).comment = l.comment := rfl; rw [hcm]; omega) hle
   have hq1' : Runs (getDirectoryCounts (eocdOf l) l.eocdPos) (build l) (l.eocdPos + 22 + l.comment.length)
       (.ok (l.pre.length, l.cdStart, l.entries.length)) q1 := by
     refine hq1.cast ?_ rfl
